@@ -36,7 +36,7 @@ check("C02", "exploration",
       "Trusted: the ChaCha spec model (validated against RFC 7539 / draft-xchacha / Bernstein vectors at every start), the position model, rustc/cargo. Not covered: positions reachable only by streaming > 2^64 bytes.",
       "deterministic simulation: seeded operation histories + reference model + real-code differential", "6.1")
 check("C11", "exploration",
-      "Same engine as C02 with a boundary mix whose injected fault is keystream exhaustion landing in every buffered state (empty buffer, buffered tail, lazily pending block, 4-block path), exact-fit requests, seeks of every integer type at/past the limit, and ordinary operations after every failure; atomicity (data, position, usability) is checked after each failed call. Requests longer than the whole keystream (2^38+1 bytes in one never-touched slice) must be refused at once (watchdog). Also on a big-endian host (Miri).",
+      "Same engine as C02 with a boundary mix whose injected fault is keystream exhaustion landing in every buffered state (empty buffer, buffered tail, lazily pending block, 4-block path), exact-fit requests, seeks of every integer type at/past the limit, and ordinary operations after every failure; atomicity (data, position, usability) is checked after each failed call. Requests longer than the whole keystream (2^38+1 bytes in one never-touched slice) must be refused at once (watchdog), while the same request to a 64-bit-counter variant must be accepted. Also on foreign hosts (s390x, powerpc, arm) and simulated CPU generations (Miri).",
       "Trusted: limit model (2^38 bytes for Ietf, none below 2^64 bytes otherwise), spec model as filter, real-code differential as decider. Relaxed: requests beyond 2^64 bytes on 64-bit-counter variants.",
       "deterministic simulation with fault injection (keystream exhaustion) + reference model", "6.2")
 
@@ -53,7 +53,7 @@ check("C14", "exploration",
       "Trusted: the counter model; the spec block function only to recognise position errors (a block that equals the spec block of a nearby counter). Other spec deviations are C01 territory.",
       "deterministic simulation: seeded operation histories on simulated hosts + state model + real-code differential", "6.3")
 check("C15", "exploration",
-      "Seeded set/get/refill/derive histories: round trip and isolation of both stream parameters over the full 64-bit range, equality of state and following output with a state created directly through new(), and the two stream-equality predicates against their definition on pairs that differ in exactly one word, in several words by the same mask, or only in position; on std (three profiles), portable, five no-std target-feature builds, target-cpu=native and two layout-randomised nightly builds.",
+      "Seeded set/get/refill/derive histories: round trip and isolation of both stream parameters over the full 64-bit range, equality of state and following output with a state created directly through new(), and the two stream-equality predicates against their definition on pairs that differ in exactly one word, in several words by the same mask, or only in position; on std (three profiles), portable, five no-std target-feature builds, target-cpu=native and four layout-randomised nightly builds; the round trips, the untouched other parameter, equality with a directly created state and the predicates are also asserted on foreign hosts (s390x, powerpc, arm, i686; thorough aarch64) and simulated CPU generations under Miri, with every boundary value as the counter.",
       "Trusted: the four-word parameter model and the statement's definition of stream equality.",
       "deterministic simulation: seeded operation histories + state model", "6.4")
 
@@ -62,7 +62,7 @@ check("C16", "fault_enumeration",
       "Trusted: mmap/mprotect semantics of Linux; an out-of-slice READ that stays inside the mapped page is not observable (both edge placements are enumerated to minimise this); input slices are read-only pages. Vector code paths per host level through hook H1; explicit Machine types for vector byte I/O.",
       "deterministic simulation with fault injection: simulator-owned buffer placement against unmapped pages, complete enumeration of placements/alignments", "6.7")
 check("C17", "exploration",
-      "The hashes' length counters are treated as clocks: hook H2 jumps them (in the implementation and in an independent reference hash alike) next to every word boundary of each format, the boundary is then crossed by update or by the padding, digests are compared and the counter is read back after every step. The first boundary of every family is additionally crossed for real by streaming up to 4 GiB through implementation and reference in lock-step.",
+      "The hashes' length counters are treated as clocks: hook H2 jumps them (in the implementation and in an independent reference hash alike) next to every word boundary of each format, the boundary is then crossed by update or by the padding, digests are compared and the counter is read back after every step. The first boundary of every family is additionally crossed for real by streaming up to 4 GiB through implementation and reference in lock-step. Counter jumps also run on a 32-bit host (i686), a big-endian 32-bit host (powerpc) and two simulated CPU generations under Miri, and in the cargo-feature build.",
       "Trusted: four reference hashes written from the specifications (validated against all KAT files of the repository at every start); hook H2 only reads/overwrites the counter field. Jumped states carry a real chaining value but are not reachable by a feasible real stream.",
       "deterministic simulation: simulated clock (length counter) jumps + independent reference models + real streaming across the first boundary", "6.8")
 
